@@ -73,7 +73,8 @@ Record input := {
   i_order : list name;             (* list(compiler.bind_names.values()) : order of first visit *)
   i_kind : dict bkind;             (* classification of compiler.binds[name] *)
   i_values : option (list name);   (* compiler._values_bindparam if _insertmanyvalues is set and it is not None *)
-  i_params : dict pval             (* construct_params(escape_names=False) *)
+  i_params : dict pval;            (* construct_params(escape_names=False) *)
+  i_pc : bool                      (* bool(compiler.literal_execute_params or compiler.post_compile_params) *)
 }.
 
 Definition kind_of (inp : input) (n : name) : bkind :=
@@ -169,7 +170,7 @@ Definition process_numeric (inp : input) (ebn : dict name) (ts : list otok)
   bind (mapM (fun t => match t with
                        | OPh e => match dget e pp' with
                                   | Some (Some k) => Ok (ONum k)
-                                  | Some None => Raise TypeError   (* re.sub callback returned None *)
+                                  | Some None => Ok (OTxt [])      (* re.sub takes a None result as "" *)
                                   | None => Raise KeyError
                                   end
                        | _ => Ok t
@@ -337,13 +338,10 @@ Definition compile (ps : style) (inp : input) : result (compiled * dict name) :=
 (* ---- DefaultExecutionContext._init_compiled ---- *)
 Inductive fparams := FPos (l : list pval) | FDict (d : dict pval).
 
-Definition has_postcompile (inp : input) : bool :=
-  existsb (fun n => negb (is_plain (kind_of inp n))) (i_order inp).
-
 Definition run (ps : style) (inp : input) : result (list otok * fparams) :=
   bind (compile ps inp) (fun ce =>
   let '(c, ebn) := ce in
-  bind (if has_postcompile inp
+  bind (if i_pc inp
         then postcompile ps inp ebn c (i_params inp)
         else Ok (c_toks c, c_positiontup c, i_params inp)) (fun r =>
   let '(ts, ptup, params) := r in
